@@ -248,6 +248,18 @@ Inductive op :=
 | OpFetch (i parent : N) (derived : bool) (h : N) (remote : bool)
 (* remote fetch during whose round trip the deletion of [i] is recorded and the worker runs once *)
 | OpFetchRace (i parent : N) (derived : bool) (h : N) (order : list N)
+(* remote fetch during which the deletion of [i] is recorded at a chosen STAGE of BuildSyncTreeOrGetRemote:
+     0 after the local storage lookup missed, before the tombstone check (checkTreeDeleted)
+     1 after the tombstone check, before the request is sent      2 while the response is in flight
+     3 right after CreateStorageWithDeferredCreation handed out the deferred storage (validation of the changes)
+     4 at the entry of the first AddAll, before its (creating) write transaction
+     5 after that AddAll returned (the tree is stored: an ordinary deletion of an existing tree)
+   [del]: 0 nothing is recorded, 1 the settings change only (UpdateState: status Queued), 2 + one deletion worker run
+   ([order] = the queue order it saw; an absent tree becomes Deleted at once) *)
+| OpFetchStaged (i parent : N) (derived : bool) (h : N) (stage del : N) (order : list N)
+(* PutSyncTree with the deletion recorded: 0 before its tombstone check, 1 after the check and before the creating
+   transaction of CreateTreeStorage, 2 after CreateTreeStorage returned *)
+| OpPutStaged (i parent : N) (derived : bool) (stage del : N) (order : list N)
 | OpHead (i h : N)
 | OpStale (n : nat)
 | OpSettings (ids : list N)
@@ -260,6 +272,46 @@ Definition do_settings (ids : list N) (s : state) : state :=
   st_add ss (with_sset ss (with_slog (slog s ++ [ids]) s)).
 
 Definition never : N := 1000000000.
+
+(* the deletion of [i] being recorded (deletionManager.UpdateState, then possibly deleter.Delete once) *)
+Definition inject (del i : N) (order : list N) (s : state) : state :=
+  if del =? 0 then s
+  else let s1 := do_settings [i] s in
+       if del =? 1 then s1 else worker order never [] s1.
+Definition inject_at (k stage del i : N) (order : list N) (s : state) : state :=
+  if stage =? k then inject del i order s else s.
+(* stages 1..4 are one point for the store: between the tombstone check and the creating transaction *)
+Definition mid_stage (stage : N) : bool := (1 <=? stage) && (stage <=? 4).
+
+(* buildSyncTree opens the storage it was handed (BuildObjectTree reads root / heads / common snapshot): if the tree
+   was created and has been deleted again in the meantime, that fails with an ordinary error *)
+Definition opened (i : N) (s : state) (o : out) : out :=
+  match o with
+  | OOk => if has_chg i s then OOk else OErrOther
+  | _ => o
+  end.
+
+Definition fetch_staged (fixed : bool) (i parent : N) (derived : bool) (h stage del : N) (order : list N)
+           (s : state) : state * out :=
+  if has_storage i s then (s, OLocal)                                   (* SpaceStorage.TreeStorage(id) *)
+  else
+    let s0 := inject_at 0 stage del i order s in
+    if tomb i s0 then (s0, OErrDeleted)                                 (* checkTreeDeleted *)
+    else
+      let s1 := if mid_stage stage then inject del i order s0 else s0 in
+      match fetch_finish fixed i parent derived h s1 with                (* the creating transaction *)
+      | (s2, o) => let s3 := inject_at 5 stage del i order s2 in (s3, opened i s3 o)
+      end.
+
+Definition put_staged (fixed : bool) (i parent : N) (derived : bool) (stage del : N) (order : list N)
+           (s : state) : state * out :=
+  let s0 := inject_at 0 stage del i order s in
+  if tomb i s0 then (s0, OErrDeleted)                                   (* checkTreeDeleted *)
+  else
+    let s1 := inject_at 1 stage del i order s0 in
+    match create_storage fixed i parent derived s1 with                  (* CreateTreeStorage: one transaction *)
+    | (s2, o) => let s3 := inject_at 2 stage del i order s2 in (s3, opened i s3 o)
+    end.
 
 Definition step (fixed : bool) (s : state) (o : op) : state * out :=
   match o with
@@ -278,6 +330,8 @@ Definition step (fixed : bool) (s : state) (o : op) : state * out :=
         match fetch_finish fixed i parent derived h s2 with
         | (s3, o) => (s3, o)
         end
+  | OpFetchStaged i parent derived h stage del order => fetch_staged fixed i parent derived h stage del order s
+  | OpPutStaged i parent derived stage del order => put_staged fixed i parent derived stage del order s
   | OpHead i h => if has_storage i s then (add_change i h s, OOk) else (s, ONoTree)
   | OpStale n =>
       match nth_error (hist s) n with
@@ -334,8 +388,18 @@ Fixpoint trace (fixed : bool) (univ : list N) (ops : list op) (s : state) : list
 (* One step: observation before, operation, output, observation after (all lists along [univ]). *)
 Definition target (o : op) : option N :=
   match o with
-  | OpPut i _ _ | OpFetch i _ _ _ _ | OpFetchRace i _ _ _ _ => Some i
+  | OpPut i _ _ | OpFetch i _ _ _ _ | OpFetchRace i _ _ _ _ | OpFetchStaged i _ _ _ _ _ _ | OpPutStaged i _ _ _ _ _ =>
+      Some i
   | _ => None
+  end.
+
+(* the deletion of the target was recorded during the operation, BEFORE the commit of the creating transaction *)
+Definition recorded_before_commit (o : op) : bool :=
+  match o with
+  | OpFetchRace _ _ _ _ _ => true
+  | OpFetchStaged _ _ _ _ stage del _ => negb (del =? 0) && (stage <=? 4)
+  | OpPutStaged _ _ _ stage del _ => negb (del =? 0) && (stage <=? 1)
+  | _ => false
   end.
 
 Definition is_restart (o : op) : bool := match o with OpRestart => true | _ => false end.
@@ -354,15 +418,18 @@ Definition spec_id (o : op) (x : out) (i : N) (b a : obs) : bool :=
   && (if is_restart o then Bool.eqb (o_mem a) (2 <=? o_st a) else true)
   (* in-memory knowledge is sound: known => durable tombstone *)
   && (if o_mem a then 2 <=? o_st a else true)
-  (* create / put / fetch of a tombstoned id: "already deleted", unless the (queued) tree is still stored locally *)
+  (* create / put / fetch of an id that is tombstoned - before the operation, or by a deletion recorded at any stage
+     of the operation before the creating transaction commits: "already deleted" (unless the tree is still stored
+     locally and served from there), and nothing of it is stored by the operation *)
   && (match target o with
       | Some j =>
-          if (j =? i) && (2 <=? o_st b)
+          if (j =? i) && ((2 <=? o_st b) || recorded_before_commit o)
           then match x with
                | OErrDeleted => true
                | OLocal => negb (o_nchg b =? 0)
                | _ => false
                end
+               && (o_nchg a <=? o_nchg b)
           else true
       | None => true
       end).
@@ -393,7 +460,8 @@ Definition spec_children (o : op) (univ : list N) (links : list (N * N)) (a : li
 
 Definition spec_latechild (o : op) (x : out) (univ : list N) (b a : list obs) : bool :=
   match o, x with
-  | OpPut i p _, OOk | OpFetch i p _ _ _, OOk | OpFetchRace i p _ _ _, OOk =>
+  | OpPut i p _, OOk | OpFetch i p _ _ _, OOk | OpFetchRace i p _ _ _, OOk
+  | OpFetchStaged i p _ _ _ _ _, OOk | OpPutStaged i p _ _ _ _, OOk =>
       if p =? 0 then true
       else if 2 <=? o_st (obs_of univ b p) then 2 <=? o_st (obs_of univ a i) else true
   | _, _ => true
@@ -402,7 +470,8 @@ Definition spec_latechild (o : op) (x : out) (univ : list N) (b a : list obs) : 
 (* (child, parent) link established by a successful creation *)
 Definition link_of (o : op) (x : out) : list (N * N) :=
   match o, x with
-  | OpPut i p _, OOk | OpFetch i p _ _ _, OOk | OpFetchRace i p _ _ _, OOk => if p =? 0 then [] else [(i, p)]
+  | OpPut i p _, OOk | OpFetch i p _ _ _, OOk | OpFetchRace i p _ _ _, OOk
+  | OpFetchStaged i p _ _ _ _ _, OOk | OpPutStaged i p _ _ _ _, OOk => if p =? 0 then [] else [(i, p)]
   | _, _ => []
   end.
 
